@@ -140,9 +140,51 @@ def generate(unit_dir, mustfail=False, mutate=None, variant=None, template='unit
             if mm:
                 txt = txt[:mm.start()]
             if o.get('mod'):
-                txt = 'pub mod %s {\n%s\n}' % (o['mod'], txt)
+                # uses=a,b: names of the generated root made visible inside the module (stand-ins for extern crates)
+                pre = ''.join('use super::%s; ' % n for n in o.get('uses', '').split(',') if n)
+                txt = 'pub mod %s {\n%s\n%s\n}' % (o['mod'], pre, txt)
             out.extend(txt.split('\n'))
             g.items.append(dict(file=rel, kind='file', name=rel, sha=hashlib.sha256(txt.encode()).hexdigest()[:16], gen_lines=(0, 0)))
+            i += 1
+        elif cmd == 'enum_samples':
+            # replay programs only: one value per variant of an enum, fields filled by the template's `Sample` trait
+            rel, name = words[1], words[2]
+            o = parse_opts(words[3:])
+            rf = load(rel)
+            a, kw, b = rf.find_item('enum', name)
+            raw = rf.text[a:b]
+            m = mask(raw)
+            from rustsrc import match_bracket
+            ob = m.index('{', m.index(name))
+            cb = match_bracket(m, ob)
+            body, mbody = raw[ob + 1:cb], m[ob + 1:cb]
+            vals, i2, depth = [], 0, 0
+            # split variants at top-level commas
+            parts, start = [], 0
+            while i2 < len(mbody):
+                ch = mbody[i2]
+                if ch in '{([':
+                    i2 = match_bracket(mbody, i2)
+                elif ch == ',':
+                    parts.append(body[start:i2]); start = i2 + 1
+                i2 += 1
+            parts.append(body[start:])
+            for part in parts:
+                t = re.sub(r'#\[[^\]]*\]', '', re.sub(r'//[^\n]*', '', part)).strip()
+                if not t:
+                    continue
+                vm = re.match(r'(\w+)\s*(\{(.*)\})?\s*$', t, re.S)
+                if not vm:
+                    raise ExtractError('enum_samples: unsupported variant shape in %s: %s' % (name, t[:40]))
+                if vm.group(2) is None:
+                    vals.append('%s::%s' % (name, vm.group(1)))
+                else:
+                    fields = re.findall(r'(?:^|,)\s*(?:pub\s+)?(\w+)\s*:', re.sub(r'<[^<>]*(?:<[^<>]*>[^<>]*)*>', '', vm.group(3)))
+                    vals.append('%s::%s { %s }' % (name, vm.group(1), ', '.join('%s: Sample::sample(k, "%s")' % (f, f) for f in fields)))
+            out.append('pub fn %s(k: usize) -> Vec<%s> { vec![' % (o.get('fn', 'samples'), name))
+            out.extend('    %s,' % v for v in vals)
+            out.append('] }')
+            g.items.append(dict(file=rel, kind='enum_samples', name=name, sha=hashlib.sha256(raw.encode()).hexdigest()[:16], gen_lines=(0, 0)))
             i += 1
         elif cmd == 'item':
             rel, kind, name = words[1], words[2], words[3]
